@@ -272,12 +272,19 @@ def c13(ctx):
       'EFFECTS over Reach(parse_expression, execute, ExprAST::exec / expr / describe) with the once-initialiser subtree excluded: no &mut HashMap method and no DerefMut on a REGISTRY / DESCRIPTOR guard (globals are read-only there); '
       'no call into a nondeterminism / ambient-state source (time, env, fs, net, thread id, RandomState, atomics); no iteration over a HashMap / HashSet (lookups only). '
       'STATICS: the static inventory equals the six known cells, no thread_local. FREEZE: ExprAST, Literal, Value contain no UnsafeCell, so exec(&self) cannot change the tree. '
-      'Context::new builds a fresh map and reaches no static; every context lock is taken on (a field of) a parameter.',
+      'Context::new builds a fresh map and reaches no static; every context lock is taken on (a field of) a parameter. '
+      'WINIT: what licenses the exclusion of the once-initialiser — its writes are unobservable only if they happen before every registration, i.e. every public registry writer is dominated by the initialiser; '
+      'otherwise the first parse of an unrelated program overwrites a registration made earlier (parsing changes observable state). '
+      'LOCK-c (NO-POISON): no undischarged engine panic site inside a guard-live region — a program that fails midway by panicking under a global guard would poison the table and change the outcome of every later, unrelated evaluation.',
       not_decided='that results are functions of the text (a value property); a correct global memo would also be flagged (accepted, DESIGN §6)',
       assumptions=COMMON_ASSUME)
 def c16(ctx):
     rm = reg_model(ctx)
     obs, n = r_effects.rule_effects(ctx, rm)
+    obs += r_registry.rule_winit(rm)
+    # a program that fails midway by panicking while a global guard is live poisons that table for every later evaluation
+    o2, _ = r_lock.rule_lock_a(ctx.lm, want=('c',))
+    obs += o2
     obs += r_misc.rule_statics(ctx)
     obs += r_misc.rule_freeze(ctx)
     return obs, {'analysed': {'scope_bodies': n}}
@@ -452,6 +459,10 @@ def slice_dischargers(ctx):
                             (bo is not None and bo.kind == 'callres' and (bo.data.callee or '').endswith('::len_utf8'))
                     if r and small:
                         return ('D-bound', 'char boundary (<= isize::MAX) + at most 4 cannot overflow usize')
+                    from analysis import Origin
+                    r3, w3 = sm.origin_b(body, Origin('binop', (b, i, payload), (('f', 0),)))
+                    if r3:
+                        return ('D-bound', 'the sum is itself a proved position of the input (%s): it is <= input.len() <= isize::MAX' % w3)
                 if payload['op'] == 'SubWithOverflow':
                     from analysis import Origin
                     r2, w2 = sm.origin_b(body, Origin('binop', (b, i, payload), (('f', 0),)))
